@@ -48,8 +48,8 @@ CLAIMS = {
    text='One step (loop body) of XdlParser::parse proved for EVERY byte and EVERY parser configuration satisfying a representation invariant (context-stack shape, comment markers, state/container consistency, unicode counter): '
         'no stack underflow, indices in range, invariant preserved, at most one push-back per character, container contexts paired with value-list pushes/pops; the constructor establishes the invariant. '
         'Prefix rejection ingredients: open containers decrease only on a closing bracket (one per input character), a string is left only at its quote, and value() returns a value only when nothing is open; an escape returns to the state it was met in; a value is placed into an object only under a pending member name (put() never reads an empty name stack); decode() always feeds the flushing blank. '
-        'By induction over the input bytes: total and memory-safe on any byte string, and chunk-independent (the step has no state outside the parser object).',
-   note=TB + 'Containers are ghost models: context stack = 3-entry window + depth with C01 top/pop preconditions, token buffer = 15 characters + length, Var tree = counters. NOT decided: agreement with an independent JSON parser on all RFC 8259 documents, the value tree built by put()/Var, atof, prefix rejection as a separate theorem, Json::decode wrapper (parser reuse across calls).',
+        'By induction over the input bytes: total and memory-safe on any byte string, and chunk-independent (the step has no state outside the parser object). Json::decode / Xdl::decode start from the constructor state (new parser, or a kept one completely reset from any earlier state: Json_decode_parser_state).',
+   note=TB + 'Containers are ghost models: context stack = 3-entry window + depth with C01 top/pop preconditions, token buffer = 15 characters + length, Var tree = counters. NOT decided: agreement with an independent JSON parser on all RFC 8259 documents, the value tree built by put()/Var, atof, prefix rejection as a separate theorem.',
    technique='CBMC code contract (inductive invariant) on the extracted loop body'),
  'C07': dict(level='proof', design='6 C07',
    text='One step (loop body) of Xml::decode proved for EVERY byte and EVERY configuration satisfying an invariant (element-stack depth vs. parser state): the element stack never underflows (closing more than was opened), '
